@@ -1124,6 +1124,12 @@ def parse_args(*args, **kwargs):
 def main(*args, **kwargs):
     args = parse_args(*args, **kwargs)
 
+    # A bitstream may contain arbitrarily large (exp-golomb coded) integers.
+    # Lift the limit CPython 3.11+ places on int-to-string conversion so that
+    # displaying such a value (or an error mentioning it) cannot fail.
+    if hasattr(sys, "set_int_max_str_digits"):
+        sys.set_int_max_str_digits(0)
+
     viewer = BitstreamViewer(
         filename=args.bitstream,
         from_offset=args.from_offset,
